@@ -374,14 +374,7 @@ func c17R3(p *core.Program, r *core.Report, rels ...string) {
 			at := g.PointOf(c)
 			facts := g.FactsAt(at)
 			if node := at.Node(); node != nil {
-				if ce, ok := node.(ast.Expr); ok {
-					facts = append(facts, shortCircuitFacts(ce, c)...)
-				}
-				if as, ok := node.(*ast.AssignStmt); ok {
-					for _, rhs := range as.Rhs {
-						facts = append(facts, shortCircuitFacts(rhs, c)...)
-					}
-				}
+				facts = append(facts, shortCircuitFacts(node, c)...)
 			}
 			guarded := false
 			for _, fct := range facts {
